@@ -223,18 +223,19 @@ INJECT = {
     "C06": ["rwlock"],
     "C07": ["sem"],
     "C08": ["once"],
+    "C09": ["barrier"],
     "C10": ["mutex", "sem", "rwlock"],
     "C11": ["rwlock"],
     "C12": ["rwlock"],
     "C14": ["mutex", "sem", "rwlock"],
-    "C17": ["mutex", "sem", "rwlock", "once"],
+    "C17": ["mutex", "sem", "rwlock", "once", "barrier"],
 }
 # runs per primitive: (prefix depth, number of injected calls, calls after the preempted one)
 INJECT_BUDGET = {
     "quick": {"mutex": [(3, 2, 0), (2, 1, 1)], "sem": [(2, 2, 0), (1, 1, 1)], "rwlock": [(2, 1, 0), (1, 1, 1)],
-              "once": [(3, 1, 0), (2, 1, 1)]},
+              "once": [(3, 1, 0), (2, 1, 1)], "barrier": [(4, 2, 1)]},
     "thorough": {"mutex": [(4, 2, 0), (3, 2, 1)], "sem": [(3, 2, 0), (2, 2, 1)], "rwlock": [(3, 1, 0), (2, 1, 1)],
-                 "once": [(4, 2, 0), (3, 1, 1)]},
+                 "once": [(4, 2, 0), (3, 1, 1)], "barrier": [(6, 2, 1)]},
 }
 
 LOOM = {
